@@ -16,7 +16,7 @@ from harness import core
 from harness.props import _emission_common as EC
 
 MANIFEST_ENTRY = {
-    "text": "Lean theorem C04_repair_needs_tag (and its mixed-event lift _E) proves by induction over days, for every repairable emission, event schedule and horizon: a leak ended 'repaired by company c' has a first tag request, on a day T inside the period while it was active, issued by c, no tag request reached it on an earlier active day, and its end date is exactly T + max(1, repair delay + that request's reporting delay); C04_not_earlier / C04_never_later(_E): while waiting it is still active with an exact day count below the delay - a tagged leak is never left active beyond the delays; C04_natural_first(_E): a leak that ended 'natural' ended on its natural end date and either no tag request reached it while active or the natural end was strictly before T + max(1, delays); C04_first_tag_stays(_E): whatever the status, the company / reporting delay / detection date on record are those of the first tag request; C04_untagged_natural; C04_end_date: end date = start + days active (incl. pre-period) for all four emission classes; C04_first_tag_wins; C04_tag_needs_completed_survey / C04_tag_event_fields / C04_incomplete_survey_no_tags over tagCalls/tagEvs/latestTaggingSurvey and C04_delay_from_list over sampleDelay - these four definitions are compared on every run with the REAL ComponentLevelMethod.survey_site (generated reports: complete / incomplete, measured rates < 0, 0, > 0) and the REAL Source._get_rep_delay / _create_emission (list / int / dataframe column; the drawn index is recorded from np.random.choice). Model tied to the real classes by differential correspondence on every run and by trace conformance of whole simulations; the oracle recomputes the expected end from the events by plain date arithmetic, checks whole-run repairs against logged tagging calls and completed surveys, and whole-run tagged leaks that were not repaired against never-later / natural-first / first-tag-stays. run_shift / C04_period_shift: the life-cycle is calendar-free (a period starting k days later shifts only the two recorded dates), checked against the real classes under eight first simulated days (New Year, Feb 29, day-of-year 366, Dec 31, one year later). Hardening stages shared with C02/C03 (same-process history, shared inputs, copies / pickles, copy-hook table, marker-like method names, boundary-period / two-simulation / pool-mode whole runs).",
+    "text": "Lean theorem C04_repair_needs_tag (and its mixed-event lift _E) proves by induction over days, for every repairable emission, event schedule and horizon: a leak ended 'repaired by company c' has a first tag request, on a day T inside the period while it was active, issued by c, no tag request reached it on an earlier active day, and its end date is exactly T + max(1, repair delay + that request's reporting delay); C04_not_earlier / C04_never_later(_E): while waiting it is still active with an exact day count below the delay - a tagged leak is never left active beyond the delays; C04_natural_first(_E): a leak that ended 'natural' ended on its natural end date and either no tag request reached it while active or the natural end was strictly before T + max(1, delays); C04_first_tag_stays(_E): whatever the status, the company / reporting delay / detection date on record are those of the first tag request; C04_untagged_natural; C04_end_date: end date = start + days active (incl. pre-period) for all four emission classes; C04_first_tag_wins; C04_tag_needs_completed_survey / C04_tag_event_fields / C04_incomplete_survey_no_tags over tagCalls/tagEvs/latestTaggingSurvey and C04_delay_from_list over sampleDelay - these four definitions are compared on every run with the REAL ComponentLevelMethod.survey_site (generated reports: complete / incomplete, measured rates < 0, 0, > 0) and the REAL Source._get_rep_delay / _create_emission (list / int / dataframe column; the drawn index is recorded from np.random.choice). Model tied to the real classes by differential correspondence on every run and by trace conformance of whole simulations; the oracle recomputes the expected end from the events by plain date arithmetic, checks whole-run repairs against logged tagging calls and completed surveys, and whole-run tagged leaks that were not repaired against never-later / natural-first / first-tag-stays. run_shift / C04_period_shift: the life-cycle is calendar-free (a period starting k days later shifts only the two recorded dates), checked against the real classes under eight first simulated days (New Year, Feb 29, day-of-year 366, Dec 31, one year later). Hardening stages shared with C02/C03 (same-process history, shared inputs, copies / pickles, copy-hook table, marker-like method names, boundary-period / two-simulation / pool-mode whole runs). Layer 3 (every run): the methods of the four emission classes are translated from the current source to Lean (harness/extract/py2lean.py, emission_src.py -> Generated/EmissionSrc.lean) and Props/EmissionTie.lean + EmissionOnSource.lean are re-checked: each translated method equals the model's function through the abstraction, iterating them is Emission.run (run_tie), and the C02/C03/C04 statements hold of the translated code; a method outside the translated subset is a note, a failing tie theorem a broken obligation.",
     "design_ref": "DESIGN.md 5.4, 4.1",
     "note": "convention fixed in DESIGN.md 5.4: with day granularity the earliest end is tag day + 1, delays 0 and 1 coincide (max 1 delta). trusted: Lean kernel + standard axioms; model tied by sampled/structured-exhaustive correspondence; harness wrappers that log tagging calls and survey steps (observation only)",
     "technique": "Lean 4 history-invariant proof over the emission state machine + differential correspondence + trace conformance + direct oracle",
@@ -83,8 +83,25 @@ def wholerun_record(ctx, res, rec):
     if rec["status"] in ("repaired", "expired"):
         if rec["endDate"] != rec["start"] + b4 + rec["activeDays"]:
             ctx.violate("C04:end-date!=start+days-active", "recorded end date differs from start + total days active", inp)
+    # nothing ends after the simulated period: an end date is the day after the last active day, so at
+    # most the day after the last simulated day (day index N), and no record has more in-period days than
+    # the period has
+    if rec["endDate"] is not None and rec["endDate"] > res.ndays:
+        ctx.violate("C04:ends-after-period", "an emission is recorded as ending after the simulated period", inp)
+    if rec["activeDays"] > res.ndays - max(rec["start"], 0) and rec["start"] < res.ndays:
+        ctx.violate("C04:more-active-days-than-the-period-has",
+                    "an emission is recorded with more active days than lie between its start and the end of the period", inp)
     if not rec["repairable"]:
         return
+    # tagged by a method of its OWN program: the tagger on record (configuration + output file only) must be
+    # one of the methods the record's program is configured with
+    own_methods = next((p["methods"] for p in cfg["programs"] if p["name"] == rec["prog"]), [])
+    if rec["tagged"] and rec["by"] not in ("natural", "", "None", "N/A", None) and rec["by"] not in own_methods:
+        ctx.violate("C04:tagged-by-method-of-another-program",
+                    "a leak is recorded as tagged by a method that is not among the methods of its own program "
+                    "(%s has %s)" % (rec["prog"], own_methods), inp)
+    if rec["tagged"] and not own_methods and rec["by"] != "natural":
+        ctx.violate("C04:tagged-in-program-without-methods", "a program without any method reports a tagged leak", inp)
     a = max(rec["start"], 0)
     nat_end = a + max(1, rec["nrd"] - b4)
     delays = [int(x) for x in cfg["repair_delay"]]
@@ -344,7 +361,7 @@ def run(ctx):
     EC.hardening_stages(ctx, results, lambda ctx, case, res, base, origin: oracle_case(ctx, case, res))
     survey_stage(ctx)
     delay_stage(ctx)
-    EC.wholerun_stage(ctx, 4, 12, wholerun_record)
+    EC.wholerun_stage(ctx, 5, 21, wholerun_record)
     EC.finish_hit_rates(ctx)
     for k in ("wholerun_program_repaired", "wholerun_tagged_still_active", "wholerun_tagged_ended_natural"):
         ctx.counts.setdefault(k, 0)
